@@ -29,6 +29,15 @@ type Cfg struct {
 	// Inline: the node also has an inline handler (.talk(): anonymous topic)
 	// besides its named topic.
 	Inline bool
+	// Errs: points on which a level / reset lambda fails to evaluate (field missing
+	// or of another type) are part of the alphabet (AlertNode.tla: errs).
+	Errs bool
+	// Multi: the data is grouped by 'g' only but the ID template also ranges over
+	// the measurement name and the tag 'h', so one group renders several alert IDs.
+	Multi bool
+	// Persist: run on the executor whose alert service persists its topics (restore
+	// after a task restart decodes the stored event states); not a model parameter.
+	Persist bool
 	// Numeric: the lambdas are the documented numeric thresholds on field "value"
 	// (info >60 reset <50, warn >70 reset <60, crit >80 reset <70) instead of the
 	// boolean fields; not part of the model configuration.
@@ -72,6 +81,15 @@ func (c Cfg) String() string {
 	if c.Inline {
 		b.WriteString("inline ")
 	}
+	if c.Errs {
+		b.WriteString("errs ")
+	}
+	if c.Multi {
+		b.WriteString("multi ")
+	}
+	if c.Persist {
+		b.WriteString("persist ")
+	}
 	fmt.Fprintf(&b, "H%d", c.H)
 	return b.String()
 }
@@ -82,7 +100,7 @@ func bools(a [3]bool) []any { return []any{a[0], a[1], a[2]} }
 func (c Cfg) JSON() rt.M {
 	return rt.M{"has": bools(c.Has), "rst": bools(c.Rst), "sco": c.Sco, "scod": c.Scod, "norec": c.NoRec,
 		"all": c.All, "flap": c.Flap, "flo": c.Flo, "fhi": c.Fhi, "H": c.H, "batch": c.Batch,
-		"rk": []any{c.RK[0], c.RK[1], c.RK[2]}, "inline": c.Inline}
+		"rk": []any{c.RK[0], c.RK[1], c.RK[2]}, "inline": c.Inline, "errs": c.Errs, "multi": c.Multi, "persist": c.Persist}
 }
 
 // Valid: resets only for present levels, all() only for batch, at least one level.
@@ -119,9 +137,17 @@ func (c Cfg) Script(topic string) string {
 	} else {
 		// the 'in' sink sees every point the task has received: ingest through
 		// TaskMaster.WritePoints is asynchronous, the driver waits on this count
-		b.WriteString("var src = stream\n    |from()\n        .measurement('m')\n        .groupBy('g')\nsrc\n    |log()\n        .prefix('in')\nsrc\n")
+		meas := "        .measurement('m')\n"
+		if c.Multi {
+			meas = "" // measurements m and m2 in one group
+		}
+		b.WriteString("var src = stream\n    |from()\n" + meas + "        .groupBy('g')\nsrc\n    |log()\n        .prefix('in')\nsrc\n")
 	}
-	b.WriteString("    |alert()\n        .id('{{ index .Tags \"g\" }}')\n")
+	if c.Multi {
+		b.WriteString("    |alert()\n        .id('{{ .Name }}/{{ index .Tags \"h\" }}/{{ index .Tags \"g\" }}')\n")
+	} else {
+		b.WriteString("    |alert()\n        .id('{{ index .Tags \"g\" }}')\n")
+	}
 	for l := 0; l < 3; l++ {
 		if c.Has[l] {
 			if c.Numeric {
@@ -169,7 +195,11 @@ func pct(p int) string { return fmt.Sprintf("%d.%02d", p/100, p%100) }
 // clock for the first point of a step).
 type Pt struct {
 	C, R [3]bool
-	Dt   int
+	// CE / RE: evaluating the level / reset lambda on the point fails (C / R are false)
+	CE, RE [3]bool
+	// Sub (Multi): 0 = measurement m, tag h=h0; 1 = m, h1; 2 = m2, h0
+	Sub int
+	Dt  int
 	V    int // field "value" (only the numeric documentation example looks at it)
 }
 
@@ -186,26 +216,58 @@ type Seq []Step
 // classes enumerates the point classes that matter for c: only lambdas that
 // exist in the configuration vary.
 func classes(c Cfg) []Pt {
-	var vars []*bool
+	type v struct{ truth, err *bool }
+	var vars []v
 	var p Pt
 	for l := 0; l < 3; l++ {
 		if c.Has[l] {
-			vars = append(vars, &p.C[l])
+			vars = append(vars, v{&p.C[l], &p.CE[l]})
 		}
 	}
 	for l := 0; l < 3; l++ {
 		if c.Has[l] && c.Rst[l] && c.RK[l] == 0 {
-			vars = append(vars, &p.R[l])
+			vars = append(vars, v{&p.R[l], &p.RE[l]})
 		}
 	}
+	base := 2
+	if c.Errs {
+		base = 3 // false, true, error
+	}
 	var out []Pt
-	for m := 0; m < 1<<len(vars); m++ {
-		for i, v := range vars {
-			*v = m&(1<<i) != 0
+	for m := 0; m < pow(base, len(vars)); m++ {
+		x := m
+		for _, vv := range vars {
+			*vv.truth, *vv.err = x%base == 1, x%base == 2
+			x /= base
 		}
 		out = append(out, p)
 	}
 	return out
+}
+
+// idOf is the alert ID the node has to render for a point of group g.
+func idOf(c Cfg, g string, sub int) string {
+	if !c.Multi {
+		return g
+	}
+	if c.Batch {
+		return measOf(sub) + "//" + g // a batch carries its group-by tags only: no h
+	}
+	return measOf(sub) + "/" + hOf(sub) + "/" + g
+}
+
+func measOf(sub int) string {
+	if sub == 2 {
+		return "m2"
+	}
+	return "m"
+}
+
+func hOf(sub int) string {
+	if sub == 1 {
+		return "h1"
+	}
+	return "h0"
 }
 
 func (p Pt) key() string {
@@ -220,7 +282,16 @@ func (p Pt) key() string {
 		}
 	}
 	b[6] = byte('0' + p.Dt)
-	return string(b[:])
+	e := 0
+	for l := 0; l < 3; l++ {
+		if p.CE[l] {
+			e |= 1 << l
+		}
+		if p.RE[l] {
+			e |= 8 << l
+		}
+	}
+	return fmt.Sprintf("%s.%d.%d", b[:], e, p.Sub)
 }
 
 func (s Seq) key() string {
